@@ -50,7 +50,7 @@ def cases(tier, seed):
     for bi, base in enumerate(bases):
         for ri, ren in enumerate(renamings(base)):
             yield {"kind": "twin", "base": base, "ren": ren, "cpp": (tier == "thorough" and ri % 2 == 0) or (bi < 2 and ri % 3 == 0),
-                   "seed": seed}
+                   "seed": seed, "assume": ri % 3 == 1}
 
 
 def renamings(d):
@@ -345,7 +345,9 @@ def eval_twin(case):
         twin[k] = list(reversed(twin[k]))
     twin["sensors"] = [[k, list(reversed(rs))] for k, rs in reversed(twin["sensors"])]
     twin["snoise"] = [[k, list(reversed(rs))] for k, rs in twin["snoise"]]
-    tag = f"{base['name']} ren={ren}"
+    if case.get("assume"):  # ... and its symbols are declared with a sympy assumption (other objects, same names)
+        twin["assume"] = {"*": {"real": True}}
+    tag = f"{base['name']} ren={ren}" + (" twin-symbols-real" if case.get("assume") else "")
     fails = []
 
     def fail(key, what):
